@@ -85,6 +85,11 @@ func (e *Engine) externWrites(f *ssa.Function) *WriteSet {
 	case p == "bytes" && f.Signature.Recv() != nil && strings.Contains(f.Signature.Recv().Type().String(), "Reader"):
 		e.ghostKeys()
 		w.Heap[gBrPos] = true
+		if f.Name() == "Read" || f.Name() == "ReadAt" {
+			// fills the caller's buffer (models_addons.go)
+			key, _ := e.memKey(types.Typ[types.Uint8])
+			w.Heap[key] = true
+		}
 		return w
 	case p == "bytes" && f.Name() == "NewReader":
 		return w
@@ -271,6 +276,13 @@ func (e *Engine) callFunction(s *State, fr *Frame, dst *ssa.Call, f *ssa.Functio
 		return nil, false
 	}
 	if v, handled := e.modelList(s, fr, dst, key, f, args, site); handled {
+		setResult(v)
+		return nil, false
+	}
+	if v, succ, handled, done := e.modelAddons(s, fr, dst, key, f, args, site); handled {
+		if done {
+			return succ, true
+		}
 		setResult(v)
 		return nil, false
 	}
